@@ -319,7 +319,7 @@ Definition stop_requesting (s : state) : state :=
 Definition next_timeout_promiscuous (nows : Z) (t : tracker) : Z :=
   if t_busy t || negb (is_usable t) then uint32_max
   else
-    let interval := if negb (t_fc t =? 0) then failed_time_next t - t_ftl t else t_ni t in
+    let interval := if negb (t_fc t =? 0) then failed_time_next t - t_ftl t else Z.max (t_ni t) (t_mi t) in
     let min_interval := Z.max (t_mi t) promisc_floor in
     let use_interval := Z.min interval min_interval in
     let since_last := nows - activity_time_last t in
@@ -402,20 +402,17 @@ Definition do_timeout (s : state) : state :=
 
 (* ---------------------------------------------------------------- replies (environment) *)
 
-Definition ctl_receive_success (id : nat) (s : state) : state :=
+(* [latest] / [ni]: latest_event() and normal_interval() of the succeeding tracker (the code reads
+   them through the handle it was given) *)
+Definition ctl_receive_success (latest : event) (ni : Z) (s : state) : state :=
   if negb (f_active (fl s)) then s
   else
     let f := fl s in
     (* only a request that carried the pending event delivers it *)
-    let latest := match find_id (trs s) id with Some t => t_ev t | None => EvNone end in
     let f1 := if event_eqb latest (current_send_event f) then clear_mask f else f in
     let s := set_fl s (mkF (f_update f1) (f_completed f1) (f_start f1) (f_stop f1) (f_active f) (f_requesting f) false false) in
     if f_requesting f then update_timeout requesting_success_timeout s
-    else if negb (has_active (trs s)) then
-      match find_id (trs s) id with
-      | Some t => update_timeout (t_ni t) s
-      | None => s
-      end
+    else if negb (has_active (trs s)) then update_timeout ni s
     else s.
 
 Definition reply_success (id : nat) (iv mv : Z) (s : state) : state :=
@@ -430,7 +427,7 @@ Definition reply_success (id : nat) (iv mv : Z) (s : state) : state :=
       (* TrackerList::receive_success: promote, add_success_request *)
       let l := promote id l in
       let l := upd l id (fun x => mkT (t_id x) (t_group x) (t_en x) (t_busy x) (t_ev x) (t_sc x + 1) 0 (now_s s) (t_ftl x) (t_ni x) (t_mi x)) in
-      ctl_receive_success id (set_trs s l)
+      ctl_receive_success (t_ev t) (set_normal_interval iv) (set_trs s l)
   end.
 
 Definition reply_failure (id : nat) (ivs : option (Z * Z)) (s : state) : state :=
